@@ -305,7 +305,19 @@ def ob_autosql_loops(ctx, res):
     for fn, lp in _loops(ctx, [A]):
         n += 1
         t = up(lp)
-        uses_tokens = any(x.k == "mcall" and x["method"] in TOKEN_METHODS and up(strip(x["recv"])) == "parser" for x in walk_no_nested_fn(lp)) or "try_parse(parser)" in t
+        def _delegates(x):
+            """a call handing `parser` to a function of this file that eats a token unconditionally before anything else"""
+            if not (x.k == "call" and any(up(strip(a)) == "parser" for a in x["args"])):
+                return False
+            cal = [f for f in ctx.ast.fns_in(A) if f.name == up(x["func"]).split("::")[-1] and f.body is not None]
+            if len(cal) != 1:
+                return False
+            for y in walk_no_nested_fn(cal[0].body):
+                if y.k == "mcall" and y["method"] in TOKEN_METHODS and up(strip(y["recv"])) == "parser":
+                    return y["method"].startswith("eat_") and not [a for a, k in cond_ancestors(y) if _is_inside(a, cal[0].body)]
+            return False
+        uses_tokens = any(x.k == "mcall" and x["method"] in TOKEN_METHODS and up(strip(x["recv"])) == "parser" for x in walk_no_nested_fn(lp)) or "try_parse(parser)" in t \
+            or any(_delegates(x) for x in walk_no_nested_fn(lp))
         if not uses_tokens:
             cls, why = classify(fn, lp)
             if cls is None:
@@ -321,7 +333,7 @@ def ob_autosql_loops(ctx, res):
         # class D: progress + end-of-input exit
         first_tok = None
         for x in walk_no_nested_fn(lp["body"]):
-            if (x.k == "mcall" and x["method"].startswith("eat_")) or (x.k == "call" and "try_parse" in up(x["func"])):
+            if (x.k == "mcall" and x["method"].startswith("eat_")) or (x.k == "call" and "try_parse" in up(x["func"])) or _delegates(x):
                 if not [a for a, k in cond_ancestors(x) if _is_inside(a, lp["body"])]:
                     first_tok = x
                     break
